@@ -21,7 +21,7 @@ rm -rf "$ovdir"; mkdir -p "$ovdir"
 ( cd "$VERIF/tools/vinstr" && go build -o "$WORKDIR/bin/vinstr" . )
 ( cd "$REPO" && "$WORKDIR/bin/vinstr" -repo "$REPO" -out "$ovdir" -rt "$VERIF/rt" -overlay "$ovdir/overlay.json" $pkgs )
 case "$prop" in
-  c10*)
+  c10*|twin)
     # scaled-constant mode (DESIGN §3.6): schedules of the marching canvas are explored on block edge 6
     f="$ovdir/modeling/marching/canvas.go.txt"
     [ -f "$f" ] || cp "$REPO/modeling/marching/canvas.go" "$f"
